@@ -147,6 +147,9 @@ _add("C03", H("H04_persist", quick={"wall": "140s", "shards": 8, "param": "maxDo
 _add("C04", H("H12_syn", quick={"wall": "140s", "shards": 8, "param": "maxSyn=1,dual=1"}, thorough={"wall": "1500s", "shards": 16, "param": "maxSyn=2,dual=1"}))
 _add("C12", H("H12_syn", quick={"wall": "140s", "shards": 8, "param": "maxSyn=1,dual=1"}, thorough={"skip": True}))
 
+# lockset discipline of the vector cache entry (reference count and id maps only under the cache's lock)
+_add("C16", H("H16_lockset", common={"vectors": True, "race": True}, quick={"wall": "100s", "shards": 4, "param": "maxEvents=4"}, thorough={"wall": "600s", "shards": 16, "param": "maxEvents=6"}))
+
 # thorough wall budgets: the first budgeted run of a property gets 600 s, the others 240 s (a thorough check
 # also repeats the quick configurations, which are exhaustive inside their bounds)
 for _pid in PLAN:
